@@ -17,6 +17,7 @@ T = {
          "term objects are read-only references; the constructors' dict comprehension is an assumed contract; np.column_stack layout assumed; prefix-sum lemma checked in Lean; key order of the slices dict not modelled", PV),
 }
 FRAG = {
+ "C02": "Proved fragments: Term.__init__ keeps every given factor exactly once and invents none (term identity = the duplicate-free factor list), Term.__eq__ compares exactly that list.",
  "C04": "Proved fragments: Treatment closed forms and labels (all n, any reference); get_interaction_matrix result[r, a*ny+b] = x[r,a]*y[r,b] for all shapes; group block layout in GroupSpecificTerm.eval_new_data.",
  "C05": "Proved fragments: block structure Z[r, g*p+l] = J[r,g]*X[r,l] (group slowest) and the trailing new-group block of GroupSpecificTerm.eval_new_data; get_interaction_matrix.",
  "C06": "Proved fragments (write-once fitted state, row locality): Center/Scale.__call__ freeze mean/std after the first call and apply the same affine map; BSpline.__call__ never re-initialises; LazyCall.eval creates the transform instance once; Polynomial.__init__ allocates fresh memo dicts; eval_new_data_categoric indexes the remembered contrast rows.",
